@@ -81,3 +81,36 @@ Print Assumptions C20_dfs_alone_incomplete.
 Print Assumptions C20_step_relation.
 Print Assumptions C20_step_covers_execution.
 Print Assumptions C20_follows_callsub.
+
+(* ------------------------------------------------------------------------------------------------------------
+   Extension (third round): further code regenerated from the Python source with equivalence lemmas *)
+From Coq Require Import List String NArith ZArith Bool Arith.
+From Tealer Require Import Tables Leaves LeafPrelude Syntax Parse Cfg StackAst Keys KeysGen Analysis Domains Detect Regex Group AssertedGen GraphGen SearchGen ConstraintsGen RegexGen GroupGen GraphGenLemmas TotalSolver GroupLemmas RegexLemmas ConstraintsGenLemmas RegexGenLemmas GroupGenLemmas.
+
+(* the regex engine REGENERATED from regex.py (tools/translate_regex.py -> Gen/RegexGen.v) satisfies the exact specification *)
+Theorem C20_regenerated_engine_spec :
+  forall (fuel wfuel : nat) (t : teal) (label : string) (regex : list instr) (start : nat) (ms : list (list nat)) (cov : list nat),
+       jumps_resolve (t_prog t) ->
+       find_label_gen (t_prog t) (t_retained_ins t) label = Some (Some start) ->
+       match_regex_gen fuel wfuel t (label, regex) = Some (ms, cov) ->
+       (forall m : list nat,
+        In m ms <->
+        (exists k : nat,
+           Reach (t_prog t) start k /\
+           is_match (t_prog t) (Some k) regex = true /\ m = collect_match (t_prog t) k (Init.Nat.pred (Datatypes.length regex)))) /\
+       NoDup ms /\
+       (forall c : nat,
+        In c cov <-> Reach (t_prog t) start c /\ (exists k : nat, ReachPlus (t_prog t) c k /\ is_match (t_prog t) (Some k) regex = true)) /\
+       (forall k : nat, Reach (t_prog t) start k -> is_match (t_prog t) (Some k) regex = true -> CPath (t_prog t) cov start k).
+Proof. exact @match_regex_gen_spec. Qed.
+
+(* ... and returns what the model returns (matches as lists, covered as sets) *)
+Theorem C20_regenerated_engine_refines_model :
+  forall (fuel wfuel : nat) (t : teal) (label : string) (regex : list instr) (ms : list (list nat)) (cov : list nat),
+       jumps_resolve (t_prog t) ->
+       match_regex_gen fuel wfuel t (label, regex) = Some (ms, cov) ->
+       exists cov0 : list nat, match_regex fuel t label regex = Done (ms, cov0) /\ seteq cov cov0.
+Proof. exact @match_regex_gen_refines. Qed.
+
+Print Assumptions C20_regenerated_engine_spec.
+Print Assumptions C20_regenerated_engine_refines_model.
